@@ -24,7 +24,7 @@ type valueSpec struct {
 var intPool = []string{"0", "1", "-1", "255", "256", "257", "65535", "65536", "65537", "2147483647", "2147483648", "-2147483648", "-2147483649",
 	"4294967295", "4294967296", "9223372036854775807", "9223372036854775808", "-9223372036854775808", "18446744073709551616", "123456789012345678901234567890"}
 
-var valueKinds = []string{"int", "int", "int", "str", "str", "bytes", "float", "bool", "list", "tuple", "dict", "set", "nested", "numtype", "big", "strlen", "shared", "booltype"}
+var valueKinds = []string{"int", "int", "int", "str", "str", "bytes", "float", "bool", "list", "tuple", "dict", "set", "nested", "numtype", "strbytes", "big", "strlen", "shared", "booltype", "tupslice", "memo255"}
 
 // render gives a Starlark expression; different V always gives a different value.
 func (v valueSpec) render() string {
@@ -72,6 +72,13 @@ func (v valueSpec) render() string {
 	case "numtype":
 		// the same number as an int and as a float: equal under ==, different values
 		return []string{"7", "7.0", "8", "8.0"}[((n%4)+4)%4]
+	case "strbytes":
+		// the same text twice, the second time as a str or as bytes
+		k := ((n % 40) + 40) % 40
+		if k%2 == 0 {
+			return fmt.Sprintf("(\"GIF89a-%d\", \"GIF89a-%d\")", k/2, k/2)
+		}
+		return fmt.Sprintf("(\"GIF89a-%d\", b\"GIF89a-%d\")", k/2, k/2)
 	case "booltype":
 		return []string{"1", "True", "0", "False"}[((n%4)+4)%4]
 	case "floatspecial":
